@@ -69,6 +69,8 @@ def confirm(ctx, module, cid, want_class):
     if line is None:
         raise Broken("case %d not found for confirmation" % cid)
     rd = os.path.join(vlib.ROOT, "replays", ctx.prop)
+    if os.environ.get("VERIF_REPO"):      # development runs against a scratch copy keep their replays apart
+        rd = os.path.join(vlib.ROOT, "replays", "_scratch", "%s-%d" % (ctx.prop, os.getpid()))
     os.makedirs(rd, exist_ok=True)
     rp = os.path.join(rd, "%s-%d.ndjson" % (ctx.tier, cid))
     open(rp, "w").write(session_prefix(ctx, cid, line))
